@@ -310,5 +310,39 @@ pub fn family(thorough: bool) -> Vec<Design> {
     );
     x.ram_min_bits = Some(8);
     v.push(x);
+    // ---- inout ports (read-only pads): `aigify` emits a sink per inout bit, so every later stage
+    // must count Output AND Inout bits when it splits the sink list into ports / FF D / RAM pins.
+    // One pad and two pads, in front of and between the other ports, with flip-flops, with a
+    // flip-flop-free cone, and with an inferred RAM behind them.
+    for (n, pads) in [("1", "  pad: inout tri logic,"), ("2", "  pad: inout tri logic,\n  pad2: inout tri logic<2>,")] {
+        let p2 = if n == "2" { " ^ pad2[0]" } else { "" };
+        let p3 = if n == "2" { " | pad2[1]" } else { "" };
+        v.push(d(
+            format!("inout{n}_ff"),
+            format!(
+                "module Top (\n  clk: input clock,\n  rst: input reset,\n{pads}\n  d: input logic<2>,\n  q: output logic<2>,\n) {{\n  var r: logic<2>;\n  always_ff (clk, rst) {{\n    if_reset {{\n      r = 0;\n    }} else {{\n      r[0] = d[0] | pad{p2};\n      r[1] = (d[1] & pad){p3};\n    }}\n  }}\n  assign q = r;\n}}\n"
+            ),
+        ));
+        v.push(d(
+            format!("inout{n}_ff_after"),
+            format!(
+                "module Top (\n  clk: input clock,\n  rst: input reset,\n  d: input logic<3>,\n  q: output logic<3>,\n  y: output logic,\n{pads}\n) {{\n  var r: logic<3>;\n  always_ff (clk, rst) {{\n    if_reset {{\n      r = 3'd5;\n    }} else {{\n      r = {{d[2] ^ pad, d[1] & ~pad{p3}, d[0] | r[2]}};\n    }}\n  }}\n  assign q = r;\n  assign y = ^r{p2};\n}}\n"
+            ),
+        ));
+        v.push(d(
+            format!("inout{n}_comb"),
+            format!(
+                "module Top (\n{pads}\n  a: input logic<2>,\n  y: output logic<2>,\n) {{\n  assign y = {{a[1] & pad{p3}, a[0] ^ pad{p2}}};\n}}\n"
+            ),
+        ));
+        let mut x = d(
+            format!("inout{n}_ram"),
+            format!(
+                "module Top (\n  clk: input clock,\n{pads}\n  we: input logic,\n  wa: input logic<3>,\n  wd: input logic<2>,\n  ra: input logic<3>,\n  rd: output logic<2>,\n) {{\n  var mem: logic<2> [8];\n  var cnt: logic<2>;\n  always_ff (clk) {{\n    if we & pad {{\n      mem[wa] = wd{p2};\n    }}\n    cnt = cnt + {{1'b0, pad}};\n  }}\n  assign rd = mem[ra] ^ cnt;\n}}\n"
+            ),
+        );
+        x.ram_min_bits = Some(8);
+        v.push(x);
+    }
     v
 }
